@@ -191,6 +191,22 @@ def mc_with_rediscovery(ctx, run, base, label, invs, consts=None, timeout=900, x
     raise C.ToolError("model checking of %s did not converge" % label)
 
 
+def asfound_selftest(ctx, invs):
+    """anti-vacuity: with the as-found behaviour switched back on in the I spec (the code before the fix commits)
+    TLC must find the counterexamples again; nothing of this run is counted as evidence of the property"""
+    which = {"C11": ('{"S5", "S14"}', "RestartSame"), "C10": ('{"UDIR"}', "StatusAgrees")}[ctx.pid]
+    cfg = gen_cfg(ctx, "MC_Overlay_quick.cfg", "asfound.cfg", known={"XCU"}, invs=invs, consts={"AsFound": which[0]})
+    r = C.tlc_mc(ctx, "MC_Overlay", cfg=cfg, workers=8, timeout=600, must_cover=False, expect_violation=True, xmx="3g")
+    ctx.states -= r["distinct"]
+    ctx.transitions -= r["generated"]
+    ctx.mc_runs.pop()
+    cex = tuples(r["output"], "CEX")
+    if which[1] not in r["violated"] or not cex:
+        raise C.ToolError("anti-vacuity: I spec with AsFound = %s does not violate %s" % which)
+    ctx.extra["anti_vacuity"] = {"as_found_behaviour": which[0], "invariant_violated": which[1],
+                                 "counterexample_ops": json.loads(cex[0][2])["ops"]}
+
+
 def binding_demo(ctx, run, ev):
     """corrupt one field / drop one row of a real, accepted segment: TLC must reject each"""
     # first segment with an upper layer, a successful op, and at least one view row
@@ -304,6 +320,7 @@ def run_prop(ctx):
         mc_hits["seq2"] = mc_with_rediscovery(ctx, run, "MC_Overlay_seq2.cfg", "seq2", invs, timeout=1500, xmx="8g", start=set(run.rediscovered))
         mc_hits["thorough"] = mc_with_rediscovery(ctx, run, "MC_Overlay_thorough.cfg", "thorough", invs, timeout=1500, xmx="8g", start=set(run.rediscovered))
     ctx.extra["mc_counterexamples"] = mc_hits
+    asfound_selftest(ctx, invs)
     # --- 2. scenarios exported from TLC (simulation walks of the I spec), replayed on the real code
     nwalk = 150 if quick else 1500
     base = "MC_Overlay_2lq.cfg" if quick else "MC_Overlay_2l.cfg"     # two lowers: three-layer union rules on the real code
